@@ -215,3 +215,151 @@ def _where(line):
         return "%s:%s" % (f, fn)
     except Exception:
         return line
+
+
+# --------------------------------------------------------------------------- generic driver
+def fd_ctrl(fr):
+    """(control, session) of an FD.TP.CM frame, else None"""
+    if fr.pf == 0x4D and len(fr.data) >= 12:
+        return fr.data[0] & 0xF, (fr.data[0] >> 4) & 0xF
+    return None
+
+
+class Driver:
+    """runs a transport scenario: messages submitted at the start (in 'order') or right after
+    the n-th bus frame ('after': n), optional capacity probes, faults on the bus.
+
+    extra scenario keys: 'msgs', 'order', 'drop': [idx..], 'silent': {stack name: k},
+    'horizon': seconds (else computed)"""
+
+    def __init__(self, sc, prefix=(), seed=0, trace_factory=None):
+        self.sc = sc
+        self.seed = seed
+        self.net = Net(sc, prefix, trace_factory)
+        self.probs = []
+        net = self.net
+        net.bus.drop = set(sc.get('drop', ()))
+        for st in net.stacks:
+            if st.name in sc.get('silent', {}):
+                st.silent_from = sc['silent'][st.name]
+        self.pending = {}
+        for i, m in enumerate(sc['msgs']):
+            if m.get('after') is not None:
+                self.pending.setdefault(m['after'], []).append(i)
+        if self.pending:
+            net.bus.taps.append(self._tap)
+
+    def _tap(self, fr):
+        lst = self.pending.pop(fr.idx + 1, None)    # 'after': n = once n frames are on the bus
+        if lst:
+            w = self.net.w
+            w.at(w.now + 1e-5, lambda: [self._submit(i) for i in lst])
+
+    def _submit(self, i):
+        m = self.sc['msgs'][i]
+        net = self.net
+        if m.get('probe'):
+            exp = self.capacity_expectation(m)
+            r = net.submit(m, self.seed)
+            mm, rr, before, after, data = net.sent[-1]
+            if exp is False and r is not False:
+                self.probs.append("capacity: send_pgn returned %r with all %s sessions of the stack in flight"
+                                  % (r, 'RTS/CTS' if m['kind'] == 'p2p' else 'BAM'))
+            if exp is True and r is not True:
+                self.probs.append("capacity: send_pgn returned %r although sessions are free" % (r,))
+            if r is False and after != before:
+                self.probs.append("refused send_pgn emitted %d frame(s)" % (after - before))
+        else:
+            net.submit(m, self.seed)
+
+    def capacity_expectation(self, m):
+        """J1939-22 reference count of the originator stack's own sessions in flight, from the
+        bus: False = must refuse, True = must accept, None = either (clean-up grace)."""
+        net = self.net
+        if net.dll != 'j1939-22' or m['size'] <= 60:
+            return None
+        si, _ = net.owner[m['src']]
+        own = set(a for a, (i, _c) in net.owner.items() if i == si)
+        now = net.w.now
+        want_bam = m['kind'] != 'p2p'
+        open_s = {}
+        recent = 0
+        for fr in net.bus.log:
+            c = fd_ctrl(fr)
+            if c is None:
+                continue
+            ctrl, sess = c
+            if not want_bam:
+                if ctrl == 0 and fr.sa in own:
+                    open_s[(sess, fr.sa, fr.ps)] = fr.t
+                elif ctrl in (3, 15) and fr.ps in own and (sess, fr.ps, fr.sa) in open_s and not fr.lost:
+                    del open_s[(sess, fr.ps, fr.sa)]
+                    if now - fr.t < 0.02:
+                        recent += 1
+                elif ctrl == 15 and fr.sa in own and (sess, fr.sa, fr.ps) in open_s:
+                    del open_s[(sess, fr.sa, fr.ps)]
+                    if now - fr.t < 0.02:
+                        recent += 1
+            else:
+                if ctrl == 4 and fr.sa in own:
+                    open_s[(sess, fr.sa)] = fr.t
+                elif ctrl == 2 and fr.ps == 255 and fr.sa in own and (sess, fr.sa) in open_s:
+                    del open_s[(sess, fr.sa)]
+                    if now - fr.t < 0.02:
+                        recent += 1
+        cap = 4 if want_bam else 8
+        if len(open_s) >= cap:
+            return False
+        if len(open_s) + recent < cap:
+            return True
+        return None
+
+    def horizon(self):
+        if 'horizon' in self.sc:
+            return self.sc['horizon']
+        dll = self.net.dll
+        n = 1
+        for m in self.sc['msgs']:
+            k = npackets(dll, m['size'])
+            n = max(n, k * 12 if m['kind'] != 'p2p' else k)
+        per = 0.006
+        return 0.5 + n * per + (1.6 if dll == 'j1939-21' else 3.4)
+
+    def run(self):
+        sc = self.sc
+        net = self.net
+        order = sc.get('order') or list(range(len(sc['msgs'])))
+        for i in order:
+            if sc['msgs'][i].get('after') is None:
+                self._submit(i)
+        net.w.run_for(self.horizon())
+        if self.pending:
+            self.probs.append("HARNESS: %d submissions never triggered" % len(self.pending))
+        return self
+
+    def standard_problems(self):
+        net = self.net
+        probs = list(self.probs)
+        limit = TP_LIMIT[net.dll]
+        for (m, r, _b, _a, _d) in net.sent:
+            if not m.get('probe') and r is not True and m['size'] > limit:
+                probs.append("send_pgn returned %r for a message within capacity" % (r,))
+        probs += net.judge_deliveries()
+        probs += net.job_problems()
+        probs += net.idle_problems()
+        return probs
+
+
+def sig_of(probs):
+    """stable class of the first problem (volatile payload details stripped)"""
+    p = probs[0]
+    if 'missing' in p and 'unexpected' in p:
+        kind = []
+        if 'missing []' not in p:
+            kind.append('message not delivered intact')
+        if 'unexpected []' not in p:
+            kind.append('unexpected delivery')
+        return 'delivery: ' + ' + '.join(kind)
+    if 'not idle' in p:
+        return p.split(':')[0]
+    return p
